@@ -66,15 +66,17 @@ let () =
       | [n; b; o; v] -> (str_ n, (b_ b, (b_ o, str_ v)))
       | _ -> failwith "c06-print: bad member" in
     match list s with
-    | [w; n; ms] ->
+    | [w; n; ms; real] ->
         let ms = list_ member_ ms in
         let names = List.map fst ms in
-        (match atom w with
-         | "interface" -> of_str (M.c06_interface_text (str_ n) ms)
-         | "zobject" -> of_str (M.c06_zobject_text (str_ n) ms)
-         | "alias" -> of_str (M.c06_alias_text (str_ n) names)
-         | "zenum" -> of_str (M.c06_zenum_text (str_ n) names)
-         | _ -> failwith "c06-print: bad kind")
+        let text = (match atom w with
+         | "interface" -> M.c06_interface_text (str_ n) ms
+         | "zobject" -> M.c06_zobject_text (str_ n) ms
+         | "alias" -> M.c06_alias_text (str_ n) names
+         | "zenum" -> M.c06_zenum_text (str_ n) names
+         | _ -> failwith "c06-print: bad kind") in
+        (* the model text, and whether the real declaration is the same token sequence (Spec/TsLex; white space is irrelevant) *)
+        List [of_str text; of_bool (M.c06_lex text = M.c06_lex (str_ real))]
     | _ -> failwith "c06-print: bad case");
   Registry.register "keys" (fun s ->
     (* (type-name file-text) -> () when the file is outside the module grammar, else ((decls)) *)
